@@ -197,7 +197,7 @@ func init() {
 	eng.Register(&eng.Check{
 		ID: "C27", Level: "exploration", HangBound: 60 * time.Second,
 		QuickBudget: 100 * time.Second, ThoroughBudget: 20 * time.Minute,
-		Rule: "fit: every lib/shape type (23 + the default arm) x content (w,h) in G^2 (G = 21 values 1..1597, Fibonacci + round numbers; thorough: every integer pair 1..160 as well) x padding in {0,5,40}^2, GetDimensionsToFit -> NewShape -> GetInnerBox (cloud: GetInnerBoxForContent); trace: every type x box sizes/origins x 9 (thorough 17) entry points per side x 35 (thorough 69) entry angles (-85..85 deg from the inward normal) x 3 distances of the previous point, TraceToShapeBorder against the harness's own flattened model of the DRAWN outline (GetSVGPathData / inscribed ellipse / box); non-trivial = positive content size (fit) or the route's line robustly crosses the outline (trace); all inputs distinct by construction",
+		Rule: "fit: every lib/shape type (23 + the default arm) x content (w,h) in G^2 (G = 21 values 1..1597, Fibonacci + round numbers; thorough: every integer pair 1..160 as well) x padding in {0,5,40}^2 and in the paddings d2graph passes (the type's default per axis, 0, +26 for an icon's label, +64 for link+tooltip) and, for content below 150, in P^2 with P = 17 values 0..100, GetDimensionsToFit -> NewShape -> GetInnerBox (cloud: GetInnerBoxForContent); trace: every type x box sizes/origins x 9 (thorough 17) entry points per side x 35 (thorough 69) entry angles (-85..85 deg from the inward normal) x 3 distances of the previous point, TraceToShapeBorder against the harness's own flattened model of the DRAWN outline (GetSVGPathData / inscribed ellipse / box); non-trivial = positive content size (fit) or the route's line robustly crosses the outline (trace); all inputs distinct by construction",
 		Assumptions: []string{
 			"content sizes and paddings outside the stated grids are not covered; the quantifier's 'symbolic reasoning over the fit formulas' is not attempted",
 			"zero-size content is excluded (degenerate aspect ratios; d2graph never sizes a shape to empty content)",
@@ -214,6 +214,46 @@ func init() {
 						for _, ch := range fitGrid {
 							for _, px := range fitPads {
 								for _, py := range fitPads {
+									w.Eval("fit", fmt.Sprintf("%s %s %s %s %s", tname(t), fnum(cw), fnum(ch), fnum(px), fnum(py)))
+								}
+							}
+						}
+					}
+				}
+			})
+			// the paddings d2graph.SetDimensions really passes: the type's GetDefaultPadding per axis, 0 on an axis whose size is
+			// explicit, plus the label height (here 26) for shapes with an icon and 64 on x for link + tooltip
+			w.Phase("fit-grid x d2graph's paddings", func() {
+				for _, t := range shapeTypes {
+					dpx, dpy := shape.NewShape(t, geo.NewBox(geo.NewPoint(0, 0), 10, 10)).GetDefaultPadding()
+					pxs := []float64{0, dpx, dpx + 26, dpx + 64, dpx + 90}
+					pys := []float64{0, dpy, dpy + 26}
+					for _, cw := range fitGrid {
+						for _, ch := range fitGrid {
+							for _, px := range pxs {
+								for _, py := range pys {
+									w.Eval("fit", fmt.Sprintf("%s %s %s %s %s", tname(t), fnum(cw), fnum(ch), fnum(px), fnum(py)))
+								}
+							}
+						}
+					}
+				}
+			})
+			// a denser padding grid on the content sizes below 150 (where the fit formulas switch cases: short pages, small
+			// persons, aspect-ratio limits)
+			w.Phase("fit-small-content x 17 paddings^2", func() {
+				pads := []float64{0, 1, 2, 5, 8, 10, 15, 20, 21, 25, 30, 40, 41, 45, 50, 60, 100}
+				for _, t := range shapeTypes {
+					for _, cw := range fitGrid {
+						for _, ch := range fitGrid {
+							if cw > 150 || ch > 150 {
+								continue
+							}
+							for _, px := range pads {
+								for _, py := range pads {
+									if (px == 0 || px == 5 || px == 40) && (py == 0 || py == 5 || py == 40) {
+										continue // fit-grid
+									}
 									w.Eval("fit", fmt.Sprintf("%s %s %s %s %s", tname(t), fnum(cw), fnum(ch), fnum(px), fnum(py)))
 								}
 							}
